@@ -7,6 +7,7 @@ import copy
 import json
 import os
 import random
+import warnings
 
 from .. import conc, kvmodel, lin, vals
 from ..audit import audit, check_messages
@@ -28,6 +29,7 @@ RULE = ('one evaluation = one seeded run: either 2-3 clients (shared object / ow
 RULE += ' ' + 'A quarter of the abort cases first make a block entry give up while it waits for a foreign write lock.'
 RULE += ' ' + 'One aborting block in eight forks a child process (which exits at once) from inside the block.'
 RULE += ' ' + 'A fifth of the aborting blocks are written as a function decorated once with transact() that calls itself for every step.'
+RULE += ' ' + 'Blocks of the concurrent Cache / Index cases hold the lock for up to 70 s (longer than the waiters wait); one seed in three runs with every warning turned into an error.'
 ASSUMPTIONS = ['FanoutCache blocks are additionally checked against the weaker per-shard-atomic model to tell the known finding F8 from any other failure']
 PROBES = ('blocks_committed', 'blocks_aborted', 'nested_block', 'abort_after_file_write', 'other_thread_timeout', 'lock_wait', 'entry_interrupted')
 TECHNIQUE = 'deterministic simulation: seeded schedules + raise-point injection; linearizability with blocks as atomic multi-step operations; before/after state comparison for aborts'
@@ -55,7 +57,7 @@ def gen_body(rng, ci, j, keys, big_n, depth, target):
         if r < 0.25 and depth == 0:
             # hold times are drawn relative to the waiters' lock timeout: every timed-out BEGIN of a retrying waiter costs
             # scheduler steps (10 ms timeout for FanoutCache), so long holds would hit the step cap without testing more
-            body.append({'op': 'sleep', 'dt': rng.choice((0.001, 0.05, 0.5) if target == 'fanout' else (0.001, 0.1, 1.0, 20.0))})
+            body.append({'op': 'sleep', 'dt': rng.choice((0.001, 0.05, 0.5) if target == 'fanout' else (0.001, 0.1, 1.0, 20.0, 70.0))})
             continue
         op = gen_plain(rng, ci, j * 10 + b, keys, big_n, target, in_block=True)
         body.append(op)
@@ -499,6 +501,16 @@ def model_apply(state, op):
 
 
 def run_case(case):
+    if case['seed'] % 3 == 1:
+        # a deployment that turns warnings into errors (python -W error, pytest's filterwarnings = error): a block that
+        # completes completes there as well, however long it took
+        with warnings.catch_warnings():
+            warnings.simplefilter('error')
+            return _run_case(case)
+    return _run_case(case)
+
+
+def _run_case(case):
     if case['cfg'].get('kind') == 'abort':
         return run_abort_case(case)
     if case['cfg'].get('kind') == 'conc-deque':
